@@ -9,8 +9,9 @@ from harness.core import cfg_text, Machinery
 from harness.drivers import rekey as rk
 
 
-def consts(mode, a_client, inflight=("plain", "wants_user_reply", "wants_direct_reply"), n=2, u=2):
-    return {"ReplyMode": mode, "AIsClient": a_client, "Inflight": set(inflight), "MaxInflight": n, "UserMsgs": u}
+def consts(mode, a_client, inflight=("plain", "wants_user_reply", "wants_direct_reply"), n=2, u=2, lock=True):
+    return {"ReplyMode": mode, "AIsClient": a_client, "Inflight": set(inflight), "MaxInflight": n, "UserMsgs": u,
+            "KexinitTakesLock": lock}
 
 
 INVS = ["KexQuiet", "SessionStaysUp", "NoSelfWait"]
@@ -28,6 +29,9 @@ def run(c):
     c.mc("Rekey", cfg_text(constants=consts("pinned", True, inflight=("plain", "wants_direct_reply")), invariants=INVS, deadlock=True),
          expect="KexQuiet|SessionStaysUp", name="sensitivity: reply via _send_message during the exchange")
 
+    c.mc("Rekey", cfg_text(constants=consts("deferred", True, inflight=("plain",), n=1, lock=False), invariants=INVS, deadlock=True),
+         expect="KexQuiet|SessionStaysUp", name="sensitivity: KEXINIT sent without taking clear_to_send_lock (overtakes a user packet)")
+
     rnd = random.Random(c.seed)
     batch = []
     kinds = [k for k in rk.KINDS]
@@ -40,6 +44,12 @@ def run(c):
                 raise Machinery("driver: message of kind %s never reached the held queue" % kind)
             batch.append(obs)
             c.case(key=(init, kind, senders), sample=obs if kind in ("close", "channel_open") and init == "server" else None)
+    # a user thread stopped between the clear-to-send check and the packet write, while a re-exchange starts
+    for init in ("client", "server"):
+        for rep in range(1 if c.quick else 3):
+            obs = rk.run_scenario(init, "gated_user_send")
+            batch.append(obs)
+            c.case(key=(init, "gated_user_send", 1), sample=obs if init == "client" and rep == 0 else None)
     clean = [{k: v for k, v in o.items() if k not in ("excs",)} for o in batch]
     res, _ = c.trace("Rekey_Trace", clean)
     if len(res["DONE"]) != len(batch):
